@@ -116,6 +116,7 @@ def run(ctx):
         c.expect = expect
     E.run_decrypt_cases(ctx, "own-output-decrypt", [c for c, _ in dcases], check_c02=True, prop="C04")
     multi(ctx)
+    multi_headerless(ctx)
     refusals(ctx)
 
 
@@ -186,6 +187,49 @@ def multi(ctx):
             if not ok:
                 ctx.report("in any-recipient mode the holder of one recipient key cannot decrypt", {"algs": algs, "i": i}, "multi:any")
     E.run_decrypt_cases(ctx, "multi-decrypt", multi_cases, check_c02=False, prop="C04")
+
+
+def multi_headerless(ctx):
+    """Several recipients added WITHOUT a per-recipient header (alg in the protected or shared unprotected header): the
+    members each recipient's algorithm generates (epk, iv, tag, p2s, p2c) must end up where that recipient reads them,
+    so every recipient's key alone decrypts in any-recipient mode."""
+    from joserfc import jwe
+    rng = ctx.rng
+    plans = [("ECDH-ES+A128KW", ["p256", "p256b"]), ("ECDH-ES+A256KW", ["x25519", "x25519b", "x25519"]), ("A128GCMKW", ["oct16", "oct16"]),
+             ("A128KW", ["oct16", "oct16"]), ("PBES2-HS256+A128KW", ["oct32", "oct16"]), ("RSA-OAEP", ["rsa2048", "rsa2048b"]),
+             ("ECDH-ES+A128KW", ["p256"])]
+    for alg, kns in plans:
+        for where in ("protected", "unprotected"):
+            enc = rng.choice(["A128GCM", "A128CBC-HS256"])
+            pt = rng.choice(E.PLAINTEXTS)
+            prot = {"enc": enc}
+            unprot = None
+            if where == "protected":
+                prot["alg"] = alg
+            else:
+                unprot = {"alg": alg}
+            keys = [K.key(kn, private=True) for kn in kns]
+            if alg in ("A128GCMKW", "A128KW"):
+                keys[1] = K.key("oct16", k="AAECAwQFBgcICQoLDA0ODw")       # a second, different 128-bit key
+            obj = jwe.GeneralJSONEncryption(prot, pt, unprot, None)
+            for k in keys:
+                obj.add_recipient(None, k)
+            try:
+                v = jwe.encrypt_json(obj, None, algorithms=E.ALL_NAMES)
+            except Exception as e:  # noqa: BLE001
+                ctx.report(f"encryption for header-less recipients ({alg} x{len(kns)}, alg in {where}) failed: {err_name(e)}",
+                           {"alg": alg, "keys": kns, "where": where}, "headerless:encrypt")
+                continue
+            for i, k in enumerate(keys):
+                try:
+                    r = jwe.decrypt_json(copy.deepcopy(v), k, registry=jwe.JWERegistry(algorithms=E.ALL_NAMES, verify_all_recipients=False))
+                    ok, why = r.plaintext == pt, "other plaintext"
+                except Exception as e:  # noqa: BLE001
+                    ok, why = False, err_name(e)
+                ctx.count("multi-headerless", (alg, tuple(kns), where, i), True, "ok" if ok else why)
+                if not ok:
+                    ctx.report(f"recipient #{i} of {len(kns)} header-less {alg} recipients (alg in the {where} header) cannot decrypt: {why}",
+                               {"alg": alg, "keys": kns, "where": where, "i": i, "value": v}, f"headerless:{alg.split('+')[0]}")
 
 
 def refusals(ctx):
